@@ -159,6 +159,7 @@ struct Agg {
     known: BTreeMap<String, (u64, u64)>, // finding -> (count, first index)
     viols: BTreeMap<u64, Vec<Viol>>,     // run index -> violations (lowest indices only)
     viol_runs: u64,
+    nontrivial_idx: BTreeSet<u64>,
     harness_errors: BTreeMap<u64, String>,
     samples: BTreeMap<u64, Value>,
     log_hash_xor: u64,
@@ -183,6 +184,11 @@ impl Agg {
         }
         self.viols.extend(o.viols);
         self.viol_runs += o.viol_runs;
+        self.nontrivial_idx.extend(o.nontrivial_idx);
+        while self.nontrivial_idx.len() > 3 {
+            let last = *self.nontrivial_idx.iter().next_back().unwrap();
+            self.nontrivial_idx.remove(&last);
+        }
         self.harness_errors.extend(o.harness_errors);
         self.samples.extend(o.samples);
         self.log_hash_xor ^= o.log_hash_xor;
@@ -263,7 +269,7 @@ pub fn run_check(def: &'static CheckDef, opts: &RunOpts) -> i32 {
                     }
                     for idx in start..(start + 32).min(total) {
                         let tape = Tape::generate(case_seed(opts.seed, def.id, idx), vec![]);
-                        let verbose = idx < nsamples;
+                        let verbose = false;
                         let cr = exec_case(def, tape, verbose);
                         local.evaluations += 1;
                         local.log_hash_xor ^= mix(cr.rec.log_hash, idx);
@@ -277,6 +283,13 @@ pub fn run_check(def: &'static CheckDef, opts: &RunOpts) -> i32 {
                         if cr.out.nontrivial {
                             local.nontrivial += 1;
                             local.distinct.insert(cr.rec.order_hash);
+                            if local.nontrivial_idx.len() < 3 || idx < *local.nontrivial_idx.iter().next_back().unwrap() {
+                                local.nontrivial_idx.insert(idx);
+                                if local.nontrivial_idx.len() > 3 {
+                                    let last = *local.nontrivial_idx.iter().next_back().unwrap();
+                                    local.nontrivial_idx.remove(&last);
+                                }
+                            }
                         }
                         for (k, v) in &cr.rec.stats {
                             *local.stats.entry(k.clone()).or_insert(0) += v;
@@ -304,7 +317,7 @@ pub fn run_check(def: &'static CheckDef, opts: &RunOpts) -> i32 {
                                 local.viols.remove(&last);
                             }
                         }
-                        if verbose {
+                        if false {
                             let mut s = cr.out.sample.clone().unwrap_or(Value::Null);
                             if let Value::Object(m) = &mut s {
                                 m.insert("run_index".into(), json!(idx));
@@ -321,8 +334,32 @@ pub fn run_check(def: &'static CheckDef, opts: &RunOpts) -> i32 {
             });
         }
     });
-    let agg = agg.into_inner().unwrap();
+    let mut agg = agg.into_inner().unwrap();
     let search_wall = t0.elapsed().as_secs_f64();
+    // samples: the first non-trivial runs (or simply the first runs), re-executed with the trace on
+    {
+        let mut idxs: Vec<u64> = agg.nontrivial_idx.iter().cloned().collect();
+        let mut i = 0;
+        while (idxs.len() as u64) < nsamples.min(total) {
+            if !idxs.contains(&i) {
+                idxs.push(i);
+            }
+            i += 1;
+        }
+        for idx in idxs {
+            let cr = exec_case(def, Tape::generate(case_seed(opts.seed, def.id, idx), vec![]), true);
+            let mut s = cr.out.sample.clone().unwrap_or(json!({}));
+            if let Value::Object(m) = &mut s {
+                m.insert("run_index".into(), json!(idx));
+                m.insert("non_trivial".into(), json!(cr.out.nontrivial));
+                m.insert("tape_len".into(), json!(cr.rec.tape.len()));
+                let n = cr.rec.lines.len();
+                m.insert("trace_prefix".into(), json!(cr.rec.lines.iter().take(60).cloned().collect::<Vec<_>>()));
+                m.insert("trace_lines".into(), json!(n));
+            }
+            agg.samples.insert(idx, s);
+        }
+    }
 
     if let Some((idx, e)) = agg.harness_errors.iter().next() {
         eprintln!("harness error in run {idx} (seed {}): {e}", opts.seed);
